@@ -86,6 +86,12 @@ type Frame struct {
 	params    []Val // entry values
 	rangeIter map[ssa.Value]*rangeState
 	snaps     map[string]map[string]Term
+	stops     []*stopRec // join blocks at which speculative branch execution stops (path merging)
+}
+
+type stopRec struct {
+	at  *ssa.BasicBlock
+	col *[]*State
 }
 
 type rangeState struct {
@@ -132,6 +138,7 @@ func (f *Frame) clone() *Frame {
 	for k, v := range f.snaps {
 		g.snaps[k] = v
 	}
+	g.stops = append([]*stopRec(nil), f.stops...)
 	g.rangeIter = make(map[ssa.Value]*rangeState, len(f.rangeIter))
 	for k, v := range f.rangeIter {
 		c := *v
@@ -760,7 +767,7 @@ func slLen(s Term) Term { return UF(SI, "sl.len", s) }
 
 func (st *State) mkSlice(arr, off, ln Term) Term {
 	s := UF(SI, "mk.slice", arr, off, ln)
-	st.assume(And(Eq(slArr(s), arr), Eq(slOff(s), off), Eq(slLen(s), ln)))
+	st.assume(And(Eq(slArr(s), arr), Eq(slOff(s), off), Eq(slLen(s), ln), Imp(Neq(arr, TInt(0)), Neq(s, TInt(0)))))
 	return s
 }
 
